@@ -35,7 +35,7 @@ pub fn region(c: &Case) -> Vec<u8> {
 
 fn load_transcript(ptr: *const u8) -> Transcript {
     let mut rec = Rec::new(ptr as usize);
-    let r = mb2_sandbox::catch(|| unsafe { multiboot2::BootInformation::load(ptr.cast()) });
+    let r = mb2_model::panics::catch(|| unsafe { multiboot2::BootInformation::load(ptr.cast()) });
     match r {
         None => rec.t.push("load", Val::Panic),
         Some(Err(e)) => rec.t.push("load", Val::Err(format!("{e:?}"))),
